@@ -12,8 +12,9 @@ CONSTANTS
   Record = FALSE
   Defect_NoArmOnSync = FALSE
   Defect_TakeoverKeepsOrigin = FALSE
+  Defect_EchoRemovesFlipped = FALSE
   Defect_ClientSetBeforeOwner = FALSE
 VIEW StateView
 INVARIANTS CountsMatch HealthyCountsMatch PerpetualMatches IndexedOnce ClientSetSound ClientSetComplete ArmedHealthy ArmedUnhealthy OwnedSupervised
-PROPERTIES NeverExpireWhileBeating NeverExpireGrpcOrPersistent ExpiredAfterSweep OwnedExpiredAfterSweep
+PROPERTIES NeverExpireWhileBeating NeverExpireGrpcOrPersistent ExpiredAfterSweep OwnedExpiredAfterSweep EchoKeepsEphemeral
 CHECK_DEADLOCK FALSE
